@@ -157,12 +157,15 @@ pub fn mk_writer(guid: GUID, topic: &str, qos: &QosPolicies, queue: usize) -> Wr
     status_sender: ws_tx,
     security_plugins: sec(),
   };
+  // simulators decide which armed timer fires when (vtimer.rs)
+  super::vtimer::set_virtual(true);
   let writer = Writer::new(
     wi,
     udp(),
-    mio_extras::timer::Builder::default().build(),
+    mio_extras::timer::Builder::default().build().into(),
     ps_tx,
   );
+  super::vtimer::set_virtual(false);
   WriterKit {
     writer,
     guid,
